@@ -11,9 +11,9 @@ ASSUME = ['reference AEAD validated on pinned official vectors', 'keys and nonce
 
 
 def harnesses():
-    return [with_args(H['aead'], 'aead', ['--arg', 'enc:C01'], 20000, 400000),
-            with_args(H['aead'], 'aead', ['--arg', 'sess'], 6000, 100000),
-            with_args(H['cpp'], 'cpp', ['--arg', 'ciphers'], 12000, 200000)]
+    return [with_args(H['aead'], 'aead', ['--arg', 'enc:C01'], 20000, 100000),
+            with_args(H['aead'], 'aead', ['--arg', 'sess'], 6000, 30000),
+            with_args(H['cpp'], 'cpp', ['--arg', 'ciphers'], 12000, 60000)]
 
 
 def run(ctx):
